@@ -198,3 +198,60 @@ func VerifC15ImportOrder() {
 		vAssert(p.Dependencies[0].Version == want, "a version-less dependency takes the first managed version in depth-first import order")
 	}
 }
+
+// VerifC15FillIn: dependency management fills in exactly the fields a dependency leaves empty: version, scope
+// and exclusions, each on its own; what the dependency declares itself is kept.
+func VerifC15FillIn() {
+	v := func(tag string) String { return String(vBytes(tag, 1)) }
+	own := Dependency{GroupID: "g", ArtifactID: "x"}
+	if vParam("ver") == 1 {
+		own.Version = v("ov")
+		vAssume(own.Version != "")
+	}
+	if vParam("scope") == 1 {
+		own.Scope = v("os")
+		vAssume(own.Scope != "")
+	}
+	if vParam("excl") == 1 {
+		own.Exclusions = []Exclusion{{GroupID: "e", ArtifactID: v("oe")}}
+	}
+	managed := Dependency{GroupID: "g", ArtifactID: "x", Version: v("mv"), Scope: v("ms"), Exclusions: []Exclusion{{GroupID: "m", ArtifactID: v("me")}}}
+	vAssume(managed.Scope != "import")
+	p := Project{}
+	p.Dependencies = []Dependency{own}
+	if vParam("where") == 0 {
+		p.DependencyManagement.Dependencies = []Dependency{managed}
+	} else {
+		// managed by an imported BOM
+		p.DependencyManagement.Dependencies = []Dependency{{GroupID: "b", ArtifactID: "A", Version: "1", Type: "pom", Scope: "import"}}
+	}
+	p.ProcessDependencies(func(g, a, ver String) (DependencyManagement, error) {
+		if a == "A" {
+			return DependencyManagement{Dependencies: []Dependency{managed}}, nil
+		}
+		return DependencyManagement{}, nil
+	})
+	vAssert(len(p.Dependencies) == 1, "one dependency")
+	if len(p.Dependencies) != 1 {
+		return
+	}
+	got := p.Dependencies[0]
+	wantV, wantS := managed.Version, managed.Scope
+	if own.Version != "" {
+		wantV = own.Version
+	}
+	if own.Scope != "" {
+		wantS = own.Scope
+	}
+	vAssert(got.Version == wantV, "the version is the dependency's own, else the managed one")
+	vAssert(got.Scope == wantS, "the scope is the dependency's own, else the managed one")
+	vAssert(len(got.Exclusions) == 1, "exclusions are the dependency's own, else the managed ones")
+	if len(got.Exclusions) == 1 {
+		if vParam("excl") == 1 {
+			vAssert(got.Exclusions[0].GroupID == "e", "exclusions are the dependency's own, else the managed ones")
+		} else {
+			vCover(vParam("ver") == 1 && vParam("scope") == 1, "a fully specified dependency still takes managed exclusions")
+			vAssert(got.Exclusions[0].GroupID == "m", "exclusions are the dependency's own, else the managed ones")
+		}
+	}
+}
